@@ -3,7 +3,7 @@
    the library against the declarative notions of DSym.tla (coarsest degree-respecting
    congruence by partition refinement, quotient, morphisms determined by the image of chamber
    1 and then verified). *)
-EXTENDS DSym, Json, IOUtils
+EXTENDS Fold, Json, IOUtils
 Rec == ndJsonDeserialize(IOEnv.TRACE)
 VARIABLE l
 Init == l = 1
@@ -33,12 +33,20 @@ MorphOK(e) ==
              res == e.res[x]                                   \* <<>> for None, else the map
          IN IF IsMorphism(S, T, cand) THEN res # <<>> /\ AsFun(res) = cand
             ELSE res = <<>>
+\* fold(p0, d, e) of the library is the fold of the machine Fold.tla: same verdict, same partition
+FoldOK(e) ==
+   LET S == e.sym
+       p0 == [c \in Chambers(S) |-> e.p0[c]]
+       r == FoldOf(S, p0, e.d, e.e)
+   IN /\ e.ok = r.ok
+      /\ (e.ok => [c \in Chambers(S) |-> e.cls[c]] = r.cls)
 Next == /\ l <= Len(Rec)
         /\ (LET e == Rec[l] IN
              /\ "panic" \notin DOMAIN e
              /\ CASE e.ev = "minimal" -> MinimalOK(e)
                   [] e.ev = "auts" -> AutsOK(e)
                   [] e.ev = "morph" -> MorphOK(e)
+                  [] e.ev = "fold" -> FoldOK(e)
                   [] OTHER -> FALSE) = TRUE
         /\ l' = l + 1
 Spec == Init /\ [][Next]_l
